@@ -79,13 +79,20 @@ def find_bind(func):
                     is_copy(v.body) and is_self(v.orelse):
                 return n.targets[0].id, n
         if isinstance(n, ast.If) and is_inplace(n.test) and \
-                len(n.body) == 1 and len(n.orelse) == 1:
-            a, b = n.body[0], n.orelse[0]
-            if isinstance(a, ast.Assign) and isinstance(b, ast.Assign) and \
-                    isinstance(a.targets[0], ast.Name) and \
-                    dotted(a.targets[0]) == dotted(b.targets[0]) and \
-                    is_self(a.value) and is_copy(b.value):
-                return a.targets[0].id, n
+                n.body and n.orelse:
+            # the branches may do more (e.g. a check that only concerns the
+            # in-place case) as long as each binds the same name, to self
+            # and to a copy
+            def binding(blk, pred):
+                for st in blk:
+                    if isinstance(st, ast.Assign) and isinstance(
+                            st.targets[0], ast.Name) and pred(st.value):
+                        return st.targets[0].id
+                return None
+            a = binding(n.body, is_self)
+            b = binding(n.orelse, is_copy)
+            if a and a == b:
+                return a, n
     return None
 
 
